@@ -282,7 +282,7 @@ theorem wf_hrandAccept (h : HashT) (count : Option Int) (wv : Bool) (o : Reply) 
     · cases ha
 
 theorem wf_hrandDefault (h : HashT) (count : Option Int) (wv : Bool) : Resp.WF (hrandDefault h count wv) := by
-  unfold hrandDefault; wf_cmd
+  unfold hrandDefault hrandFirst; wf_cmd
 
 theorem wf_hrandReply (obs : Option Reply) (h : HashT) (count : Option Int) (wv : Bool) : Resp.WF (hrandReply obs h count wv) := by
   unfold hrandReply
